@@ -1,5 +1,5 @@
 #!/usr/bin/env python3
-"""seedtest.py <seed-dir> [--tier quick] [--no-confirm]
+"""seedtest.py <seed-dir> [--tier quick] [--no-confirm | --confirm-only]
 Confirms a seeded change (patch.diff + demo_test.go + meta.json) in a scratch worktree and then runs
 the property's check against /repo with the patch applied (and undoes it).  Prints one summary line."""
 import json, os, subprocess, sys, shutil, time
@@ -32,6 +32,15 @@ def main():
             rc, o = sh("go test -count=1 -timeout 20m ./... 2>&1 | tail -40", cwd=wt, env=env)
             out["suite_passes_with_patch"] = ("FAIL" not in o)
             if not out["suite_passes_with_patch"]:
+                # a test of the pinned suite that is flaky on a busy machine: run the failed packages once more
+                import re
+                pkgs = sorted(set(re.findall(r"FAIL\s+(github.com/ipni/go-libipni\S*)", o)))
+                if pkgs:
+                    rcr, o_r = sh("go test -count=1 -timeout 20m %s 2>&1 | tail -40" % " ".join(pkgs), cwd=wt, env=env)
+                    out["suite_passes_with_patch"] = "FAIL" not in o_r
+                    out["suite_retried"] = pkgs
+                    o = o_r
+            if not out["suite_passes_with_patch"]:
                 out["suite_tail"] = o[-600:]
             shutil.copy(os.path.join(d, "demo_test.go"), os.path.join(td, "zz_seed_demo_test.go"))
             rc1, o1 = sh("go test -count=1 -run 'Demo|C[0-9][0-9]|Seed|Test' -timeout 10m ./%s/ 2>&1 | tail -30" % meta["test_dir"], cwd=wt, env=env)
@@ -43,6 +52,8 @@ def main():
                 out["demo_without_tail"] = o2[-600:]
         finally:
             sh("git -C /repo worktree remove --force %s" % wt)
+    if "--confirm-only" in sys.argv:
+        print(json.dumps(out)); return
     # The check runs against a scratch worktree with the patch applied (VERIF_REPO), so /repo itself stays
     # untouched and other checks can run meanwhile; evidence and replays of seeded runs go to scratch dirs.
     wt2 = "/tmp/seedrun-%d" % os.getpid()
